@@ -55,6 +55,10 @@ def where(condition: numpy.typing.ArrayLike, *args: PolyLike) -> ndpoly:
         for x1, x2 in zip(poly1.coefficients, poly2.coefficients)
     ]
     dtype = numpy.result_type(poly1.dtype, poly2.dtype)
+    if not coefficients:
+        # arrays without elements list no coefficients: keep the shape
+        shape = numpy.broadcast_shapes(numpy.shape(condition), poly1.shape)
+        coefficients = [numpy.zeros(shape, dtype=dtype) for _ in poly1.keys]
     return numpoly.polynomial_from_attributes(
         exponents=poly1.exponents,
         coefficients=coefficients,
